@@ -90,7 +90,7 @@ class C19(Prop):
     theorems = ["EaselModel.Props.C19." + t for t in (
         "keyhash_refines_partial", "keyhash_refines_cstrings", "keyhash_refines_mixed", "keyhash_nul_store_answer", "keyhash_string_paths", "keyhash_dump", "keyhash_cstr_of_nulfree", "keyhash_never_faults_partial", "keyhash_refines_jenkins_partial", "keyhash_ops_partial", "keyhash_upsize", "keyhash_fields_in_range_partial", "jenkins_in_range",
         "keyhash_embedded_nul_counterexample", "spec_store", "spec_lookup", "spec_get",
-        "keyhash_refines", "keyhash_never_faults", "keyhash_refines_jenkins", "keyhash_ops", "keyhash_key_length", "keyhash_get_cstring", "keyhash_string_paths_repaired", "keyhash_dump_repaired", "keyhash_fields_in_range", "keyhash_embedded_nul_repaired",
+        "keyhash_refines", "keyhash_never_faults", "keyhash_refines_jenkins", "keyhash_ops", "keyhash_key_length", "keyhash_get_cstring", "keyhash_string_paths_repaired", "keyhash_dump_repaired", "keyhash_fields_in_range", "keyhash_embedded_nul_repaired", "keyhash_at_bound", "keyhash_below_bound", "keyhash_at_bound_default", "keyhash_kalloc_at_bound", "keyhash_hashsize_at_bound",
         "heap_history", "heap_insert", "heap_extract", "heap_extract_null", "heap_extract_null_unguarded_faults", "heap_sorts", "heap_drain", "heap_validate", "heap_nalloc_in_range", "heap_grow", "heap_duplicates",
         "rb_insert", "rb_history", "rb_wf_iff", "rb_height", "rb_lookup", "rb_sorted_linked", "rb_linked_is_reverse_inorder", "rb_lookup_history", "rb_pool_never_twice", "rb_ptr_lookup", "rb_convert_doubly_linked", "rb_convert_null", "rb_convert_passes_list_test", "rb_ops_history", "rb_ptr_descend", "rb_ptr_insert_duplicate", "rb_ptr_insert_black_parent", "rb_ptr_insert_first", "rb_pool_give_take", "rb_ptr_insert_refines", "rb_ptr_rebalance_refines", "rb_ptr_insert_wf", "rb_ptr_history", "rb_ptr_history_converts",
         "stack_history", "stack_history_shuffles", "stack_no_fault", "stack_threads_atomic", "stack_threads_conservation", "stack_threads_eod_only_after_release", "stack_threads_mutex_progress", "stack_threads_waiting_pop_completes", "stack_threads_stuck_only_when_all_asleep", "stack_threads_completes_after_release", "stack_push_pop", "stack_pop_empty", "stack_lifo", "stack_popAll_unfold", "stack_discardTopN", "stack_discardSelected",
@@ -553,6 +553,9 @@ class C19(Prop):
             ops.append("qsort mode=%s data=%s" % (rng.choice(["asc", "desc", "coarse"]), fmt_ints(self.int_data(rng, n))))
         return ops
 
+    def _nul_ok(self):
+        return bool(getattr(self, "_nul", False))
+
     def boundary_cases(self, rng):
         """directed cases at the reallocation / growth boundaries (128, 256, 512 elements; 3x table size keys)"""
         out = []
@@ -604,6 +607,66 @@ class C19(Prop):
             rb += ["rb_lookup k=%s" % fmt_ints(sorted(set(ks)) + [0, 100, -1]), "rb_list"]
             out.append({"name": "rp-%s" % name, "sticky": 1, "ops": rp})
             out.append({"name": "rb-%s" % name, "sticky": 1, "ops": rb})
+        # ---- round 6: the boundaries the quantifier names -------------------------------------------------------------
+        # (a) keys with bytes >= 0x80 and embedded / leading / trailing NULs, each presented BOTH by length and as a C string
+        #     (n = -1: the bytes before the first NUL), in a 1-slot table (every key collides) and in a 2-slot one
+        hi = [b"\x80", b"\xff", b"\x80\xff\x80", b"\xfe" * 7, b"a\x80", b"\x80a", b"\xff\x00", b"\x00\xff", b"\x80\x00\x80", b"\x80\x00\x81",
+              b"\x00", b"\x00\x00", b"", b"a\x00b", b"a\x00c", b"a", b"a\x00", b"\xc3\xa9t\xc3\xa9", b"\xff" * 300, b"\x80" * 299 + b"\x00"]
+        if not self._nul_ok():
+            hi = [k for k in hi if b"\0" not in k]
+        for size in (1, 2):
+            ops = ["kh_new size=%d kalloc=1 salloc=1" % size]
+            for k in hi:
+                ops += ["store key=%s" % hx(k), "store key=%s str=1" % hx(k), "lookup key=%s" % hx(k), "lookup key=%s str=1" % hx(k)]
+            ops += ["getall", "kh_dump", "kh_sizes", "kh_clone", "kh_swap"] + ["lookup key=%s" % hx(k) for k in hi] + ["kh_reuse"]
+            ops += ["store key=%s str=1" % hx(k) for k in reversed(hi)] + ["getall", "kh_dump"]
+            out.append({"name": "kh-high-nul-%d" % size, "sticky": 1, "ops": ops})
+        # (b) a 1-slot custom table and the default table across EVERY 8-fold growth (keys 3*size+1): sizes, dump and lookups
+        #     at n-1, n, n+1 of each crossing; the quick tier goes through 4 crossings of the 1-slot table (1 -> 4096 slots) and
+        #     both crossings of the default table reachable below 10^4 keys, the thorough tier adds the fifth (-> 32768 slots)
+        for name, first, size0, ngrow in (("one", "kh_new size=1 kalloc=1 salloc=1", 1, 4 if getattr(self, "_quick", True) else 5),
+                                          ("default", "kh_default", 128, 2)):
+            marks = set()
+            size = size0
+            for _ in range(ngrow):
+                marks |= {3 * size - 1, 3 * size, 3 * size + 1, 3 * size + 2}
+                size *= 8
+            total = max(marks) + 1
+            ops = [first]
+            for i in range(total):
+                k = (b"%d" % i) + (b"\xe9" if i % 3 == 0 else b"")
+                ops.append("store key=%s%s" % (hx(k), " str=1" if i % 7 == 6 else ""))
+                if i + 1 in marks:
+                    ops += ["kh_sizes", "num", "lookup key=%s" % hx(k), "lookup key=%s" % hx(b"0\xe9"), "lookup key=%s" % hx(b"%d" % (i + 1)), "get i=%d" % i, "get i=0"]
+                    if i + 1 < 400: ops.append("kh_dump")
+            ops += ["getall", "kh_sizes", "kh_clone", "kh_swap", "store key=%s" % hx(b"%d" % total), "kh_sizes", "kh_reuse", "kh_sizes", "store key=31", "getall"]
+            out.append({"name": "kh-every-growth-%s" % name, "sticky": 1, "ops": ops})
+        # (c) heaps with duplicates at the allocation boundaries (INITALLOC 128, doubling): all-equal, two-valued and
+        #     boundary-valued multisets of n-1, n, n+1 elements, extraction interleaved with insertion across the boundary
+        for n in (127, 128, 129, 255, 256, 257, 511, 512, 513):
+            for style, vals in (("eq", [7] * n), ("two", [rng.choice([3, 4]) for _ in range(n)]),
+                                ("ext", [rng.choice([INT_MIN, INT_MAX, 0]) for _ in range(n)])):
+                mx = rng.randrange(2)
+                ops = ["heap_new max=%d" % mx, "hins v=%s" % fmt_ints(vals[:n - 2]), "hcount", "hins v=%s" % fmt_ints(vals[n - 2:n - 1]), "hext",
+                       "hins v=%s" % fmt_ints(vals[n - 1:] + vals[:2]), "hvalidate", "hdump", "hpop", "hins v=%s" % fmt_ints(vals[:3]), "htop", "hcount", "hdrain", "hext", "hcount"]
+                out.append({"name": "heap-dup-%s-%d" % (style, n), "sticky": 1, "ops": ops})
+        # (d) red-black histories of >= 200 insertions in adversarial orders, pointer level (every record compared) and tree level
+        nrb = 256 if getattr(self, "_quick", True) else 1500
+        orders = (("asc", list(range(nrb))), ("desc", list(range(nrb, 0, -1))),
+                  ("zig-out", [x for p in zip(range(nrb // 2), range(nrb, nrb // 2, -1)) for x in p]),
+                  ("zig-in", [nrb // 2 + ((j + 1) // 2 if j % 2 else -(j // 2)) for j in range(nrb)]),
+                  ("asc-dup", [x for k in range(nrb // 2) for x in (k, k)]),
+                  ("saw", [x for b in range(0, nrb, 16) for x in (list(range(b, b + 16)) if (b // 16) % 2 == 0 else list(range(b + 15, b - 1, -1)))]))
+        for name, ks in orders:
+            rp = ["rp_new pool=%d" % rng.choice([0, 7, 64])]
+            rb = ["rb_new exp=%d pool=%d" % (rng.choice([0, -1074 + 54, 900]), rng.choice([0, 5]))]
+            for i, k in enumerate(ks):
+                rp += ["rp_ins k=%d" % k, "rp_nodes" if (i % 16 == 15 or i < 12) and i < 400 else "rp_hash"]
+                rb += ["rb_ins k=%d" % k, "rb_dump" if (i % 16 == 15 or i < 12) and i < 400 else "rb_hash"]
+            rp += ["rp_lookup k=%s" % fmt_ints(ks[:40] + [-5, nrb + 7]), "rp_pool", "rp_convert", "rp_hash", "rp_ltest", "rp_walk"]
+            rb += ["rb_lookup k=%s" % fmt_ints(ks[:40] + [-5, nrb + 7]), "rb_dump" if nrb < 400 else "rb_hash", "rb_list"]
+            out.append({"name": "rp-long-%s" % name, "sticky": 1, "ops": rp})
+            out.append({"name": "rb-long-%s" % name, "sticky": 1, "ops": rb})
         for n in (0, 1, 2, 3):
             for mode in ("asc", "desc", "coarse"):
                 out.append({"name": "qs-%d-%s" % (n, mode), "sticky": 0, "ops": ["qsort mode=%s data=%s" % (mode, fmt_ints(self.int_data(rng, n)))]})
@@ -612,6 +675,7 @@ class C19(Prop):
     def cases(self, ctx):
         rng = ctx.rng
         quick = ctx.tier == "quick"
+        self._quick = quick
         self._nul = self.repaired(ctx)       # the known region (NUL keys stored by length) is avoided only while the defect is in the tree
         out = list(self.boundary_cases(rng))
         import os
@@ -1029,8 +1093,105 @@ class C19(Prop):
                     keylen["0" if L == 0 else "1-8" if L <= 8 else "9-64" if L <= 64 else "65-255" if L <= 255 else "256-300"] += 1
         return {"cases": len(cs), "max_ops_per_case": maxops, "ops": dict(opcount), "key_lengths": dict(keylen)}
 
+    # ------------------------------------------------------------------ public API of the five anchored modules vs. ops + theorems
+    API_THEOREMS = {
+        "esl_keyhash_Create": ["keyhash_refines", "keyhash_ops"], "esl_keyhash_CreateCustom": ["keyhash_refines", "keyhash_ops", "keyhash_at_bound"],
+        "esl_keyhash_Clone": ["keyhash_refines", "keyhash_ops"], "esl_keyhash_Get": ["keyhash_refines", "keyhash_get_cstring", "spec_get"],
+        "esl_keyhash_GetNumber": ["keyhash_ops"], "esl_keyhash_Sizeof": [], "esl_keyhash_Reuse": ["keyhash_refines", "keyhash_ops"],
+        "esl_keyhash_Destroy": [], "esl_keyhash_Dump": ["keyhash_dump_repaired"],
+        "esl_keyhash_Store": ["keyhash_refines", "keyhash_key_length", "keyhash_string_paths_repaired", "spec_store", "keyhash_upsize", "keyhash_at_bound"],
+        "esl_keyhash_Lookup": ["keyhash_refines", "keyhash_string_paths_repaired", "spec_lookup"],
+        "esl_heap_ICreate": ["heap_history"], "esl_heap_GetCount": ["heap_history"], "esl_heap_IGetTopVal": ["heap_history"],
+        "esl_heap_Reuse": ["heap_history"], "esl_heap_Destroy": [], "esl_heap_IInsert": ["heap_insert", "heap_history", "heap_grow", "heap_duplicates"],
+        "esl_heap_IExtractTop": ["heap_extract", "heap_extract_null", "heap_sorts", "heap_drain"], "esl_heap_IGetTop": [],
+        "esl_red_black_doublekey_Create": ["rb_ptr_history"], "esl_red_black_doublekey_Destroy": [], "esl_red_black_doublekey_linked_list_Destroy": [],
+        "esl_red_black_doublekey_pool_Create": ["rb_pool_never_twice", "rb_pool_give_take"],
+        "esl_red_black_doublekey_insert": ["rb_ptr_insert_refines", "rb_ptr_rebalance_refines", "rb_ptr_insert_wf", "rb_ptr_history", "rb_insert", "rb_history", "rb_height"],
+        "esl_red_black_doublekey_lookup": ["rb_ptr_lookup", "rb_lookup", "rb_lookup_history"],
+        "esl_red_black_doublekey_convert_to_sorted_linked": ["rb_convert_doubly_linked", "rb_convert_passes_list_test", "rb_convert_null", "rb_ptr_history_converts", "rb_sorted_linked"],
+        "esl_quicksort": ["quicksort_sorts", "quicksort_unguarded_n0_faults"],
+        "esl_stack_ICreate": ["stack_history"], "esl_stack_CCreate": ["stack_history"], "esl_stack_PCreate": ["stack_history"],
+        "esl_stack_Reuse": ["stack_history"], "esl_stack_Destroy": [],
+        "esl_stack_IPush": ["stack_push_pop", "stack_history", "stack_nalloc_in_range"], "esl_stack_CPush": ["stack_push_pop", "stack_history"], "esl_stack_PPush": ["stack_push_pop", "stack_history"],
+        "esl_stack_IPop": ["stack_push_pop", "stack_pop_empty", "stack_lifo"], "esl_stack_CPop": ["stack_push_pop", "stack_pop_empty", "stack_lifo"], "esl_stack_PPop": ["stack_push_pop", "stack_pop_empty", "stack_lifo"],
+        "esl_stack_ObjectCount": ["stack_history"], "esl_stack_Convert2String": ["stack_convert2String"], "esl_stack_DiscardTopN": ["stack_discardTopN"],
+        "esl_stack_DiscardSelected": ["stack_discardSelected"], "esl_stack_Shuffle": ["stack_shuffle", "stack_history_shuffles"],
+        "esl_stack_UseMutex": ["stack_threads_atomic", "stack_threads_mutex_progress"], "esl_stack_UseCond": ["stack_threads_conservation", "stack_threads_waiting_pop_completes"],
+        "esl_stack_ReleaseCond": ["stack_threads_eod_only_after_release", "stack_threads_completes_after_release"],
+    }
+    API_NOTES = {
+        "esl_heap_IGetTop": "declared in esl_heap.h, defined nowhere (no code to model)",
+        "esl_keyhash_Sizeof": "compared exactly (op kh_sizes); a size report, no property clause",
+        "esl_keyhash_Destroy": "called at every case end under LeakSanitizer", "esl_heap_Destroy": "called at every case end under LeakSanitizer",
+        "esl_stack_Destroy": "called at every case end under LeakSanitizer", "esl_red_black_doublekey_Destroy": "called at every case end under LeakSanitizer",
+        "esl_red_black_doublekey_linked_list_Destroy": "called after every conversion under LeakSanitizer",
+    }
+
+    def api_coverage(self, ctx):
+        """Mechanical list: every function declared in the five public headers of the working tree -> is it defined, which
+        harness ops call it, how often the generated cases used those ops, which theorems of SPEC.theorems speak about it."""
+        import os, re
+        hdrs = ["esl_keyhash.h", "esl_heap.h", "esl_red_black.h", "esl_quicksort.h", "esl_stack.h"]
+        syms = []
+        for h in hdrs:
+            txt = open(os.path.join(ctx.src, h), errors="replace").read()
+            txt = re.sub(r"/\*.*?\*/", " ", txt, flags=re.S)
+            for m in re.finditer(r"\b(esl_(?:keyhash|heap|stack|red_black_doublekey)_\w+|esl_quicksort)\s*\(", txt):
+                if m.group(1) not in syms: syms.append(m.group(1))
+        ctext = ""
+        for c in ["esl_keyhash.c", "esl_heap.c", "esl_red_black.c", "esl_quicksort.c", "esl_stack.c"]:
+            ctext += re.sub(r"/\*.*?\*/", " ", open(os.path.join(ctx.src, c), errors="replace").read(), flags=re.S)
+        import vlib.engine as eng
+        htxt = open(os.path.join(os.path.dirname(os.path.dirname(os.path.abspath(__file__))), "harness", self.harness)).read()
+        # harness text cut at every `strcmp(op, "name")`: the symbols used until the next op name belong to that op
+        cuts = [(m.start(), m.group(1)) for m in re.finditer(r'strcmp\(op, "(\w+)"\)', htxt)]
+        ops_of = {}
+        # helper functions of the harness (before the op dispatcher): the library functions they call, transitively
+        pre = htxt[:cuts[0][0]] if cuts else htxt
+        hpos = [(m.start(), m.group(1)) for m in re.finditer(r"^static[^\n;(]*?\b(\w+)\s*\(", pre, flags=re.M)]
+        helper = {}
+        for i, (pos, name) in enumerate(hpos):
+            body = pre[pos:hpos[i + 1][0]] if i + 1 < len(hpos) else pre[pos:]
+            helper[name] = (body, {sname for sname in syms if re.search(r"\b%s\s*\(" % re.escape(sname), body)})
+        for _ in range(3):
+            for name, (body, used) in helper.items():
+                for other, (_, oused) in helper.items():
+                    if other != name and re.search(r"\b%s\s*\(" % re.escape(other), body): used |= oused
+        for i, (pos, name) in enumerate(cuts):
+            seg = htxt[pos:cuts[i + 1][0]] if i + 1 < len(cuts) else htxt[pos:]
+            for sname in syms:
+                if re.search(r"\b%s\s*\(" % re.escape(sname), seg): ops_of.setdefault(sname, set()).add(name)
+            for hname, (_, used) in helper.items():
+                if re.search(r"\b%s\s*\(" % re.escape(hname), seg):
+                    for sname in used: ops_of.setdefault(sname, set()).add(name)
+        anywhere = {sname for sname in syms if re.search(r"\b%s\s*\(" % re.escape(sname), htxt)}
+        opcount = (ctx.stats.get("input_distribution") or {}).get("ops", {})
+        known = set(t.rsplit(".", 1)[1] for t in self.theorems)
+        table, uncovered = [], []
+        for sname in syms:
+            defined = bool(re.search(r"\b%s\s*\([^;{}]*\)\s*\{" % re.escape(sname), ctext))
+            ops = sorted(ops_of.get(sname, ()))
+            ths = self.API_THEOREMS.get(sname)
+            row = {"function": sname, "defined": defined, "harness_ops": ops, "called_in_harness": sname in anywhere,
+                   "op_uses_this_run": sum(opcount.get(o, 0) for o in ops),
+                   "theorems": [t for t in (ths or []) if t in known], "theorems_missing": [t for t in (ths or []) if t not in known]}
+            if sname in self.API_NOTES: row["note"] = self.API_NOTES[sname]
+            if ths is None: row["note"] = "NEW public function: not in the plug-in's table (no op, no theorem yet)"
+            if defined and (sname not in anywhere or ths is None): uncovered.append(sname)
+            table.append(row)
+        return {"public_functions": len(syms), "defined": sum(1 for r in table if r["defined"]),
+                "called_by_harness": sum(1 for r in table if r["called_in_harness"]),
+                "with_theorem": sum(1 for r in table if r["theorems"]), "uncovered": uncovered, "table": table}
+
     def extra_evidence(self, ctx):
-        return {"keyhash_variant_in_tree": ctx.stats.get("keyhash_variant_in_tree")}
+        ev = {"keyhash_variant_in_tree": ctx.stats.get("keyhash_variant_in_tree")}
+        try:
+            ev["api_coverage"] = self.api_coverage(ctx)
+        except Exception as e:                      # a coverage table must never turn a passing check into a failing one
+            ev["api_coverage"] = {"error": repr(e)}
+        for k in ("rb_long_histories", "keyhash_growth_boundary_cases"):
+            if k in ctx.stats: ev[k] = ctx.stats[k]
+        return ev
 
 
 SPEC = C19()
